@@ -594,7 +594,52 @@ func (vc *VC) oblige(o *Obligation) {
 	o.NAssert = len(vc.asserts)
 	o.NDecl = len(vc.decls)
 	o.Func = vc.fn
-	vc.obls = append(vc.obls, o)
+	if o.Cover {
+		vc.obls = append(vc.obls, o)
+		return
+	}
+	parts := splitGoal(o.Goal.S, 0)
+	if len(parts) <= 1 {
+		vc.obls = append(vc.obls, o)
+		return
+	}
+	for k, p := range parts {
+		c := *o
+		c.Goal = Term{p, SBool}
+		c.Name = fmt.Sprintf("%s/%d", o.Name, k+1)
+		vc.obls = append(vc.obls, &c)
+	}
+}
+
+// splitGoal splits a goal into conjuncts: (and a b) -> a, b ; (=> h (and a b)) -> (=> h a), (=> h b).
+func splitGoal(g string, depth int) []string {
+	if depth > 6 || !strings.HasPrefix(g, "(") {
+		return []string{g}
+	}
+	switch {
+	case strings.HasPrefix(g, "(and "):
+		args := splitSexprArgs(g)
+		var out []string
+		for _, a := range args[1:] {
+			out = append(out, splitGoal(a, depth+1)...)
+		}
+		return out
+	case strings.HasPrefix(g, "(=> "):
+		args := splitSexprArgs(g)
+		if len(args) != 3 {
+			return []string{g}
+		}
+		sub := splitGoal(args[2], depth+1)
+		if len(sub) <= 1 {
+			return []string{g}
+		}
+		var out []string
+		for _, s := range sub {
+			out = append(out, "(=> "+args[1]+" "+s+")")
+		}
+		return out
+	}
+	return []string{g}
 }
 
 // ---- SMT-LIB emission
